@@ -45,6 +45,20 @@ fn tokens(rng: &mut Rng, lit: &mut String) -> usize {
     k
 }
 
+/// program text of one data element (None where the text would not lex back to the same token)
+fn render_token(t: &Token) -> Option<Vec<u8>> {
+    Some(match t {
+        Token::DecimalNumericProgramData(s) => s.to_vec(),
+        Token::CharacterProgramData(s) => s.to_vec(),
+        Token::StringProgramData(s) => [&b"'"[..], s, b"'"].concat(),
+        Token::ArbitraryBlockData(s) => [format!("#1{}", s.len()).as_bytes(), s].concat(),
+        Token::ExpressionProgramData(s) => [&b"("[..], s, b")"].concat(),
+        Token::NonDecimalNumericProgramData(v) => format!("#H{:X}", v).into_bytes(),
+        Token::DecimalNumericSuffixProgramData(n, x) => [n, &b" "[..], x].concat(),
+        _ => return None,
+    })
+}
+
 macro_rules! numtype {
     ($ctx:expr, $rng:expr, $t:ty, $name:literal, $cmp:expr, $mk:expr, $tmin:expr, $tmax:expr) => {{
         let ctx: &mut Ctx = $ctx;
@@ -126,6 +140,31 @@ macro_rules! numtype {
         let nv: Result<NumericValue<$t>, Error> = NumericValue::<$t>::try_from(tok);
         ctx.count(&format!("type.{}", $name));
         ctx.nontrivial(mix(hash_str(&format!("{:?}", tok)), hash_str($name)));
+        // 0. the way a handler obtains it: the same element, lexed from text, through Parameters::next_data and
+        // Parameters::next_optional_data (required and optional <numeric_value> parameters) gives what the conversion gives
+        if let Some(text) = render_token(&tok) {
+            use scpi::parser::tokenizer::Tokenizer;
+            let want = format!("{:?}", nv.as_ref().map_err(|e| e.get_code()));
+            let mut t1 = Tokenizer::new_params(&text).peekable();
+            let mut p1 = scpi::parser::parameters::Parameters::with(&mut t1);
+            let r1: Result<NumericValue<$t>, Error> = p1.next_data();
+            let mut t2 = Tokenizer::new_params(&text).peekable();
+            let mut p2 = scpi::parser::parameters::Parameters::with(&mut t2);
+            let r2: Result<Option<NumericValue<$t>>, Error> = p2.next_optional_data();
+            ctx.count("accessor.next_data/next_optional_data-compared-with-conversion");
+            let g1 = format!("{:?}", r1.as_ref().map_err(|e| e.get_code()));
+            let g2 = match &r2 {
+                Ok(Some(v)) => format!("Ok({:?})", v),
+                Ok(None) => "absent".to_string(),
+                Err(e) => format!("Err({:?})", e.get_code()),
+            };
+            if g1 != want {
+                ctx.violation("C17:accessor:next_data-differs-from-conversion", jobj(&[("type", jstr($name)), ("data", jbytes(&text)), ("conversion", jstr(&want)), ("next_data", jstr(&g1))]));
+            }
+            if g2 != want {
+                ctx.violation("C17:accessor:next_optional_data-differs-from-conversion", jobj(&[("type", jstr($name)), ("data", jbytes(&text)), ("conversion", jstr(&want)), ("next_optional_data", jstr(&g2))]));
+            }
+        }
         let detail = |extra: &str| jobj(&[("type", jstr($name)), ("token", jstr(&format!("{:?}", tok))), ("min", jstr(&format!("{:?}", lo))), ("max", jstr(&format!("{:?}", hi))), ("default", jstr(&format!("{:?}", if with_default { Some(def) } else { None }))), ("observed", jstr(extra))]);
         // 1. recognition
         let recognised = match (&nv, expect_kw) {
